@@ -787,6 +787,23 @@ class Interp:
             return list(v)
         if isinstance(v, (type({}.items()), type({}.keys()), type({}.values()), type(iter([])), map, filter, zip, enumerate, reversed)):
             return list(v)
+        if isinstance(v, Obj) and v.cls is not None:
+            ok, r = self._class_lookup(v.cls, v, "__iter__")
+            if ok:
+                return self.iterate(self.call(r, (), {}, node), node)
+            ok, r = self._class_lookup(v.cls, v, "__getitem__")
+            if ok:
+                out, i = [], 0
+                while True:
+                    self._tick()
+                    try:
+                        out.append(self.call(r, (i,), {}, node))
+                    except PyRaise as e:
+                        if e.name == "IndexError":
+                            return out
+                        raise
+                    i += 1
+            raise PyRaise("TypeError", ("%s object is not iterable" % v.cls.name,), node)
         if v is None or isinstance(v, (int, Pt)):
             raise PyRaise("TypeError", ("%s is not iterable" % type(v).__name__,), node)
         raise NotModelled("iteration over %r" % type(v).__name__)
@@ -1281,9 +1298,26 @@ class Lin(PyModel):
         self.terms = {k: v for k, v in (terms or {}).items() if v}
         self.const = const
 
+    LOW = {}  # atom name -> known lower bound (default 0: symbolic non-negative ints)
+
     @staticmethod
-    def atom(name):
+    def atom(name, low=0):
+        if low:
+            Lin.LOW[name] = max(low, Lin.LOW.get(name, 0))
         return Lin({name: 1}, 0)
+
+    def sign(self):
+        """'+' if provably > 0, '0' if == 0, '-' if provably < 0, '>=0', '<=0', or None (not decided by the
+        lower bounds of the atoms)"""
+        if not self.terms:
+            return "+" if self.const > 0 else "-" if self.const < 0 else "0"
+        if all(k > 0 for k in self.terms.values()):
+            lo = self.const + sum(k * Lin.LOW.get(a, 0) for a, k in self.terms.items())
+            return "+" if lo > 0 else ">=0" if lo == 0 else None
+        if all(k < 0 for k in self.terms.values()):
+            hi = self.const + sum(k * Lin.LOW.get(a, 0) for a, k in self.terms.items())
+            return "-" if hi < 0 else "<=0" if hi == 0 else None
+        return None
 
     @staticmethod
     def of(x):
@@ -1333,10 +1367,44 @@ class Lin(PyModel):
     def __hash__(self):
         return hash((tuple(sorted(self.terms.items())), self.const))
 
-    def _cmp(self, *a):
-        raise NotModelled("ordering comparison of symbolic linear value %s" % self)
+    def _diff_sign(self, o, what):
+        d = self - Lin.of(o)
+        sg = d.sign()
+        if sg is None:
+            raise NotModelled("ordering comparison %s %s %s is not decided by the bounds of the symbolic lengths" % (self, what, o))
+        return sg
 
-    __lt__ = __le__ = __gt__ = __ge__ = _cmp
+    def __lt__(self, o):
+        sg = self._diff_sign(o, "<")
+        if sg in ("-",):
+            return True
+        if sg in ("+", "0", ">=0"):
+            return False
+        raise NotModelled("ordering comparison %s < %s is not decided" % (self, o))
+
+    def __le__(self, o):
+        sg = self._diff_sign(o, "<=")
+        if sg in ("-", "0", "<=0"):
+            return True
+        if sg == "+":
+            return False
+        raise NotModelled("ordering comparison %s <= %s is not decided" % (self, o))
+
+    def __gt__(self, o):
+        sg = self._diff_sign(o, ">")
+        if sg == "+":
+            return True
+        if sg in ("-", "0", "<=0"):
+            return False
+        raise NotModelled("ordering comparison %s > %s is not decided" % (self, o))
+
+    def __ge__(self, o):
+        sg = self._diff_sign(o, ">=")
+        if sg in ("+", "0", ">=0"):
+            return True
+        if sg == "-":
+            return False
+        raise NotModelled("ordering comparison %s >= %s is not decided" % (self, o))
 
     def __bool__(self):
         raise NotModelled("truth value of symbolic linear value %s" % self)
@@ -1384,6 +1452,71 @@ def _default_natives(it):
     def chain(*seqs):
         return _Iter([x for q in seqs for x in it.iterate(q)])
 
+    def chain_from_iterable(seqs):
+        return _Iter([x for q in it.iterate(seqs) for x in it.iterate(q)])
+
+    def groupby(seq, key=None):
+        kf = (lambda x: x) if key is None else (lambda x: it.call(key, (x,)))
+        return _Iter([(k, _Iter(list(g))) for k, g in _it.groupby(it.iterate(seq), kf)])
+
+    def islice(seq, *a):
+        return _Iter(list(_it.islice(it.iterate(seq), *a)))
+
+    def accumulate(seq, func=None, initial=None):
+        f = None if func is None else (lambda a, b: it.call(func, (a, b)))
+        return _Iter(list(_it.accumulate(it.iterate(seq), f, initial=initial)))
+
+    def pairwise(seq):
+        return _Iter(list(_it.pairwise(it.iterate(seq))))
+
+    def product(*seqs, repeat=1):
+        return _Iter(list(_it.product(*[it.iterate(q) for q in seqs], repeat=repeat)))
+
+    class _Match(PyModel):
+        def __init__(self, m):
+            self._m = m
+            for nm in ("group", "groups", "groupdict", "start", "end", "span"):
+                setattr(self, nm, getattr(m, nm))
+
+        def __bool__(self):
+            return True
+
+        def __getitem__(self, k):
+            return self._m[k]
+
+    def _wrap(m):
+        return None if m is None else _Match(m)
+
+    class _Pattern(PyModel):
+        def __init__(self, pat, flags=0):
+            import re as _re
+            self._p = _re.compile(pat, flags)
+            self.pattern = pat
+
+        def match(self, s2, *a):
+            return _wrap(self._p.match(s2, *a))
+
+        def search(self, s2, *a):
+            return _wrap(self._p.search(s2, *a))
+
+        def fullmatch(self, s2, *a):
+            return _wrap(self._p.fullmatch(s2, *a))
+
+    def re_compile(pat, flags=0):
+        if not isinstance(pat, (str, bytes)):
+            raise NotModelled("re.compile of a non-literal pattern")
+        return _Pattern(pat, flags)
+
+    def re_fn(name):
+        def f(pat, s2, flags=0):
+            import re as _re
+            if isinstance(pat, _Pattern):
+                return _wrap(getattr(pat._p, name)(s2))
+            if not isinstance(pat, (str, bytes)) or not isinstance(s2, (str, bytes)):
+                raise NotModelled("re.%s on model values" % name)
+            return _wrap(getattr(_re, name)(pat, s2, flags))
+        return f
+
     def reduce(f, seq, *init):
         import functools
         return functools.reduce(lambda a, b: it.call(f, (a, b)), it.iterate(seq), *init)
@@ -1392,6 +1525,9 @@ def _default_natives(it):
         "bisect.bisect_left": bl, "bisect.bisect_right": br, "bisect.bisect": br,
         "bisect.insort_left": insl, "bisect.insort_right": insr, "bisect.insort": insr,
         "itertools.takewhile": takewhile, "itertools.dropwhile": dropwhile, "itertools.chain": chain,
+        "itertools.chain.from_iterable": chain_from_iterable, "itertools.groupby": groupby, "itertools.islice": islice,
+        "itertools.accumulate": accumulate, "itertools.pairwise": pairwise, "itertools.product": product,
+        "re.compile": re_compile, "re.match": re_fn("match"), "re.search": re_fn("search"), "re.fullmatch": re_fn("fullmatch"),
         "functools.reduce": reduce,
     }
 
